@@ -41,7 +41,7 @@ class Unit:
                              'witness': witness, 'replay': replay, 'info': info or {}})
 
     def prove(self, key, assumptions, goal, timeout=20.0, cvc5_timeout=None, replay=None, detail='',
-              order=('z3', 'cvc5'), sample=False):
+              order=('z3', 'cvc5'), sample=False, pin=None):
         """decide  assumptions => goal.  replay(model) -> (reproduced: bool, replay_record, text)"""
         t0 = time.time()
         if z3.is_true(z3.simplify(goal)) if not isinstance(goal, bool) else goal:
@@ -74,6 +74,14 @@ class Unit:
             self.add(key, 'error', detail + ' [replay crashed: %r]' % (e,), witness=wit, info=info)
             return 'error'
         if ok:
+            if pin is not None:
+                # a listed finding is characterised by the formula the code satisfies instead (pin): if the pin
+                # does not hold either, this is a different violation and gets a different key
+                pst, _, _ = smt.solve(list(assumptions) + [z3.Not(pin)], timeout_s=timeout, cvc5_timeout_s=cvc5_timeout, want_model=False)
+                if pst != 'unsat':
+                    key = key + '#pin-not-established(%s)' % pst
+                else:
+                    detail = detail + ' [pin formula holds]'
             self.add(key, 'violated', detail + ' :: ' + text, witness=wit, replay=record, info=info)
             return 'violated'
         if ok is None:
